@@ -16,7 +16,9 @@ def expectedCall (env : Env V) (k : Nat) (c : Call V) (behav : Nat → Outcome V
   | .builtin .ping => ([.sent (.ret c.serial c.sender none .empty)], none)
   | .builtin .introspect => ([.sent (.ret c.serial c.sender (some ['s']) (.xml c.path))], none)
   | .builtin .managed =>
-    ([.sent (.ret c.serial c.sender (some "a{oa{sa{sv}}}".toList) (.managed c.path))], none)
+    match env.managedErr c.path with
+    | none => ([.sent (.ret c.serial c.sender (some "a{oa{sa{sv}}}".toList) (.managed c.path))], none)
+    | some e => ([sendErr c managedFailed.1 (pyFormat managedFailed.2 [e.text])], none)
   | .unknownObject => ([sendErr c unknownObject.1 (pyFormat unknownObject.2 [c.path])], none)
   | .unknownMethod =>
     ([sendErr c unknownMethod.1
@@ -122,7 +124,13 @@ theorem expectedCall_split (env : Env V) (k : Nat) (c : Call V) (behav : Nat →
     expectedCall env k c behav v =
       (callInv c v ++ callReplies env k c behav v, callPending k c behav v) := by
   cases v with
-  | builtin b => cases b <;> rfl
+  | builtin b =>
+    cases b with
+    | ping => rfl
+    | introspect => rfl
+    | managed =>
+      simp only [expectedCall, callInv, callReplies, callPending]
+      cases env.managedErr c.path <;> rfl
   | unknownObject => rfl
   | unknownMethod => rfl
   | invalidArgs m => rfl
@@ -251,7 +259,13 @@ theorem sendErr_one (c : Call V) (name text : Str) : OneReply c.serial c.sender 
 theorem callReplies_replyish (env : Env V) (k : Nat) (c : Call V) (behav : Nat → Outcome V) (v : Verdict) :
     Replyish c.serial c.sender (callReplies env k c behav v) := by
   cases v with
-  | builtin b => cases b <;> exact Or.inr ⟨_, rfl, rfl, rfl⟩
+  | builtin b =>
+    cases b with
+    | ping => exact Or.inr ⟨_, rfl, rfl, rfl⟩
+    | introspect => exact Or.inr ⟨_, rfl, rfl, rfl⟩
+    | managed =>
+      simp only [callReplies, expectedCall]
+      cases env.managedErr c.path <;> exact Or.inr ⟨_, rfl, rfl, rfl⟩
   | unknownObject => exact Or.inr ⟨_, rfl, rfl, rfl⟩
   | unknownMethod => exact Or.inr ⟨_, rfl, rfl, rfl⟩
   | invalidArgs m => exact Or.inr ⟨_, rfl, rfl, rfl⟩
@@ -298,7 +312,13 @@ theorem callReplies_one (env : Env V) (ht : TextTotal env) (k : Nat) (c : Call V
     (v : Verdict) (he : c.expectReply = true) (hp : callPending k c behav v = none) :
     OneReply c.serial c.sender (callReplies env k c behav v) := by
   cases v with
-  | builtin b => cases b <;> exact ⟨_, rfl, rfl, rfl⟩
+  | builtin b =>
+    cases b with
+    | ping => exact ⟨_, rfl, rfl, rfl⟩
+    | introspect => exact ⟨_, rfl, rfl, rfl⟩
+    | managed =>
+      simp only [callReplies, expectedCall]
+      cases env.managedErr c.path <;> exact ⟨_, rfl, rfl, rfl⟩
   | unknownObject => exact ⟨_, rfl, rfl, rfl⟩
   | unknownMethod => exact ⟨_, rfl, rfl, rfl⟩
   | invalidArgs m => exact ⟨_, rfl, rfl, rfl⟩
